@@ -1388,3 +1388,185 @@ Proof.
     + exact (no_closure_never_runs _ _ _ _ _ _ _ _ _ H1 Hl H Hnd Hd).
   - exact (deleted_once_if_answered _ _ _ _ _ _ _ _ _ H1 Hl H Hb Hnd).
 Qed.
+
+(* ------------------------------------------------------------------ accounting: every call is held or has completed *)
+(* the channel still holds the call: registered, or fetched and not yet registered *)
+Definition held (s : state) (c : call) : Prop :=
+  (exists i, lookup i (outs s) = Some c) \/ (exists t i, tget t (threads s) = TFetched i c).
+
+Lemma exec_snoc s ls l s2 tr2 :
+  exec s (ls ++ [l]) = Some (s2, tr2) ->
+  exists s1 tr1 ev, exec s ls = Some (s1, tr1) /\ step s1 l = Some (s2, ev) /\ tr2 = tr1 ++ [(l, ev)].
+Proof.
+  intros H. apply exec_app in H. destruct H as (s1 & tr1 & trx & H1 & H2 & ->).
+  apply exec_cons in H2. destruct H2 as (s' & ev & tr' & Hs & He & ->). inversion He; subst.
+  exists s1, tr1, ev. auto.
+Qed.
+
+Lemma cnt_live_pos s c : held s c -> (1 <= cnt (c_tag c) (live s))%nat.
+Proof.
+  unfold live. rewrite cnt_app. intros [[i Hl]|(t & i & Hg)].
+  - assert (1 <= cnt (c_tag c) (tags_outs (outs s)))%nat; [|lia].
+    induction (outs s) as [|[j e] r IH]; cbn [lookup] in Hl; [discriminate|].
+    change (tags_outs ((j, e) :: r)) with ([c_tag e] ++ tags_outs r). rewrite cnt_app.
+    destruct (i =? j).
+    + inversion Hl; subst e. unfold cnt. cbn. destruct (Nat.eq_dec (c_tag c) (c_tag c)); [lia|congruence].
+    + apply IH in Hl. lia.
+  - assert (1 <= cnt (c_tag c) (tags_threads (threads s)))%nat; [|lia].
+    unfold tget in Hg. induction (threads s) as [|[u st] r IH]; cbn [nlookup] in Hg; [discriminate|].
+    change (tags_threads ((u, st) :: r)) with (ts_tags st ++ tags_threads r). rewrite cnt_app.
+    destruct (Nat.eqb t u).
+    + subst st. unfold cnt. cbn. destruct (Nat.eq_dec (c_tag c) (c_tag c)); [lia|congruence].
+    + apply IH in Hg. lia.
+Qed.
+
+Lemma cnt_complete_other tg d b : tg <> c_tag d -> cnt tg (run_tags (complete d b)) = 0%nat /\ cnt tg (del_tags (complete d b)) = 0%nat.
+Proof.
+  intros Hne. unfold complete, cnt. destruct (c_resp d), (c_done d); cbn; split; try reflexivity;
+    destruct (Nat.eq_dec (c_tag d) tg); congruence.
+Qed.
+
+Lemma cnt_complete_self d b :
+  c_resp d = true ->
+  cnt (c_tag d) (run_tags (complete d b)) = (if c_done d then 1 else 0)%nat /\ cnt (c_tag d) (del_tags (complete d b)) = 1%nat.
+Proof.
+  intros Hr. unfold complete, cnt. rewrite Hr. destruct (c_done d); cbn; destruct (Nat.eq_dec (c_tag d) (c_tag d)); try congruence; split; reflexivity.
+Qed.
+
+Lemma call_eq_dec_tag (c d : call) : {c_tag c = c_tag d} + {c_tag c <> c_tag d}.
+Proof. apply Nat.eq_dec. Qed.
+
+Definition completed (evs : list event) (c : call) : Prop :=
+  cnt (c_tag c) (run_tags evs) = (if c_done c then 1 else 0)%nat /\ cnt (c_tag c) (del_tags evs) = 1%nat.
+
+(* every call ever made on the channel is still held by it, or has completed: its closure has run
+   exactly once (never, if it has none) and its response object has been deleted exactly once *)
+Lemma call_accounting svcs ls : forall s tr,
+  exec (init svcs) ls = Some (s, tr) -> NoDup (fetch_tags ls) ->
+  forall t c, In (LFetch t c) ls -> held s c \/ completed (events tr) c.
+Proof.
+  unfold held. induction ls as [|l ls IH] using rev_ind; intros s tr H Hnd t c Hin; [destruct Hin|].
+  apply exec_snoc in H. destruct H as (s1 & tr1 & ev & H1 & Hs & ->).
+  assert (NoDup (fetch_tags ls)) as Hnd1.
+  { unfold fetch_tags in *. rewrite flat_map_app in Hnd. revert Hnd. generalize (flat_map (fun l0 => match l0 with LFetch _ c0 => [c_tag c0] | _ => [] end) ls).
+    intros a Ha. induction a as [|x a IHa]; [constructor|]. cbn [app] in Ha. inversion Ha; subst. constructor; [|auto].
+    intros Hx. apply H2. apply in_or_app. auto. }
+  pose proof (inv_exec _ _ _ _ (inv_init svcs) H1) as [HK HF HD].
+  pose proof (cinv_exec _ _ _ _ (cinv_init svcs) H1) as [HCo HCt].
+  pose proof (exec_linv [] _ _ _ _ (linv_init svcs) H1) as [HLo HLt]. cbn [app] in HLo, HLt.
+  rewrite events_app. unfold events at 2. cbn [flat_map snd]. rewrite app_nil_r.
+  assert (forall c0, completed (events tr1) c0 -> run_tags ev = [] -> del_tags ev = [] -> completed (events tr1 ++ ev) c0) as Hkeep.
+  { intros c0 [A B] E1 E2. unfold completed. rewrite run_tags_app, del_tags_app, E1, E2, !app_nil_r. auto. }
+  apply in_app_or in Hin. destruct Hin as [Hin|[E|[]]].
+  - (* an older call *)
+    destruct (IH _ _ H1 Hnd1 t c Hin) as [Hh|Hc].
+    + destruct l as [u d|u|u|i b|r|k m|i].
+      * pose proof (step_fetch _ _ _ _ _ Hs) as (Hg & -> & _). left. destruct Hh as [[i Hl]|(v & i & Hv)]; [left; eauto|right].
+        exists v, i. cbn [threads]. rewrite tget_tset. destruct (Nat.eq_dec u v) as [->|]; [congruence|exact Hv].
+      * pose proof (step_register _ _ _ _ Hs) as (i & d & Hg & -> & _). left. cbn [outs threads].
+        destruct Hh as [[j Hl]|(v & j & Hv)].
+        -- left. exists j. assert (i <> j) by (intros ->; apply HF in Hg; destruct Hg; congruence).
+           rewrite lookup_insert_other by assumption. exact Hl.
+        -- destruct (Nat.eq_dec u v) as [->|Hne].
+           ++ rewrite Hg in Hv. inversion Hv; subst. left. exists j. apply lookup_insert_same.
+           ++ right. exists v, j. rewrite tget_tset. destruct (Nat.eq_dec u v); [congruence|exact Hv].
+      * pose proof (step_send _ _ _ _ Hs) as (i & d & Hg & -> & _). left. cbn [outs threads].
+        destruct Hh as [[j Hl]|(v & j & Hv)]; [left; eauto|right]. exists v, j. rewrite tget_tset.
+        destruct (Nat.eq_dec u v) as [->|]; [congruence|exact Hv].
+      * pose proof (step_response _ _ _ _ _ Hs) as (_ & [(d & Hl & -> & ->)|(_ & -> & ->)]); [|left; exact Hh].
+        destruct (HLo _ _ Hl) as [td Hfd].
+        destruct (call_eq_dec_tag c d) as [Heq|Hne].
+        -- (* the call that completes now *)
+           assert (c = d) as -> by (eapply fetch_tag_injective; eauto). right.
+           pose proof (exec_budget (c_tag d) _ _ _ _ H1) as Hb. pose proof (exec_budget_del (c_tag d) _ _ _ _ H1) as Hbd.
+           pose proof (proj1 (NoDup_count_occ Nat.eq_dec (fetch_tags ls)) Hnd1 (c_tag d)) as Hc1. fold (cnt (c_tag d) (fetch_tags ls)) in Hc1.
+           change (cnt (c_tag d) (live (init svcs))) with 0%nat in Hb, Hbd.
+           pose proof (cnt_live_pos s1 d (or_introl (ex_intro (fun i0 => lookup i0 (outs s1) = Some d) i Hl))) as Hlive.
+           destruct (cnt_complete_self d b (HCo _ _ Hl)) as [A B].
+           unfold completed. rewrite run_tags_app, del_tags_app, !cnt_app, A, B. split; lia.
+        -- left. cbn [outs threads]. destruct Hh as [[j Hl']|(v & j & Hv)]; [left|right; eauto].
+           exists j. assert (i <> j) by (intros ->; rewrite Hl in Hl'; inversion Hl'; subst; apply Hne; reflexivity).
+           rewrite lookup_remove_other by assumption. exact Hl'.
+      * pose proof (step_request _ _ _ _ Hs) as [(e & _ & -> & _)|(q & _ & -> & _)]; left; exact Hh.
+      * pose proof (step_done _ _ _ _ _ Hs) as (i & _ & -> & _). left. exact Hh.
+      * pose proof (step_other _ _ _ _ Hs) as (-> & _). left. exact Hh.
+    + right. destruct l as [u d|u|u|i b|r|k m|i].
+      * pose proof (step_fetch _ _ _ _ _ Hs) as (_ & _ & ->). apply Hkeep; auto.
+      * pose proof (step_register _ _ _ _ Hs) as (i & d & _ & _ & ->). apply Hkeep; auto.
+      * pose proof (step_send _ _ _ _ Hs) as (i & d & _ & _ & ->). apply Hkeep; auto.
+      * pose proof (step_response _ _ _ _ _ Hs) as (_ & [(d & Hl & _ & ->)|(_ & _ & ->)]); [|apply Hkeep; auto].
+        destruct (HLo _ _ Hl) as [td Hfd].
+        destruct (call_eq_dec_tag c d) as [Heq|Hne].
+        -- (* impossible: a completed call is not outstanding *)
+           exfalso. assert (c = d) as -> by (eapply fetch_tag_injective; eauto).
+           pose proof (exec_budget_del (c_tag d) _ _ _ _ H1) as Hbd.
+           pose proof (proj1 (NoDup_count_occ Nat.eq_dec (fetch_tags ls)) Hnd1 (c_tag d)) as Hc1. fold (cnt (c_tag d) (fetch_tags ls)) in Hc1.
+           change (cnt (c_tag d) (live (init svcs))) with 0%nat in Hbd.
+           pose proof (cnt_live_pos s1 d (or_introl (ex_intro (fun i0 => lookup i0 (outs s1) = Some d) i Hl))) as Hlive. destruct Hc as [_ Hdel]. lia.
+        -- destruct (cnt_complete_other (c_tag c) d b Hne) as [A B]. destruct Hc as [C D].
+           unfold completed. rewrite run_tags_app, del_tags_app, !cnt_app, A, B. split; lia.
+      * pose proof (step_request _ _ _ _ Hs) as [(e & _ & _ & ->)|(q & _ & _ & ->)]; apply Hkeep; auto.
+      * pose proof (step_done _ _ _ _ _ Hs) as (i & _ & _ & ->). apply Hkeep; auto.
+      * pose proof (step_other _ _ _ _ Hs) as (_ & ->). apply Hkeep; auto.
+  - (* the call fetched by this very step *)
+    subst l. pose proof (step_fetch _ _ _ _ _ Hs) as (_ & -> & _). left. right. exists t, (next_id s1 + 1).
+    cbn [threads]. apply tget_tset_same.
+Qed.
+
+(* a thread that has registered its call got that call from an LFetch label of its own *)
+Definition linv2 (pastl : list label) (s : state) : Prop :=
+  forall t i c, tget t (threads s) = TRegistered i c -> In (LFetch t c) pastl.
+
+Lemma exec_linv2 svcs ls : forall s tr,
+  exec (init svcs) ls = Some (s, tr) ->
+  (forall t i c, tget t (threads s) = TFetched i c -> In (LFetch t c) ls) /\ linv2 ls s.
+Proof.
+  unfold linv2. induction ls as [|l ls IH] using rev_ind; intros s tr H.
+  - inversion H; subst. split; intros t i c Hg; discriminate.
+  - apply exec_snoc in H. destruct H as (s1 & tr1 & ev & H1 & Hs & ->).
+    destruct (IH _ _ H1) as [HF HR].
+    assert (forall t i c, tget t (threads s1) = TFetched i c -> In (LFetch t c) (ls ++ [l])) as HF' by (intros; apply in_or_app; left; eauto).
+    assert (forall t i c, tget t (threads s1) = TRegistered i c -> In (LFetch t c) (ls ++ [l])) as HR' by (intros; apply in_or_app; left; eauto).
+    destruct l as [u d|u|u|i b|r|k m|i].
+    + pose proof (step_fetch _ _ _ _ _ Hs) as (_ & -> & _). cbn [threads]. split; intros t i c; rewrite tget_tset;
+        destruct (Nat.eq_dec u t) as [->|]; intros Hg; eauto; try discriminate.
+      inversion Hg; subst. apply in_or_app. right. left. reflexivity.
+    + pose proof (step_register _ _ _ _ Hs) as (i & d & Hg0 & -> & _). cbn [threads]. split; intros t j c; rewrite tget_tset;
+        destruct (Nat.eq_dec u t) as [->|]; intros Hg; eauto; try discriminate.
+      inversion Hg; subst. eauto.
+    + pose proof (step_send _ _ _ _ Hs) as (i & d & Hg0 & -> & _). cbn [threads]. split; intros t j c; rewrite tget_tset;
+        destruct (Nat.eq_dec u t) as [->|]; intros Hg; eauto; discriminate.
+    + pose proof (step_response _ _ _ _ _ Hs) as (_ & [(d & _ & -> & _)|(_ & -> & _)]); cbn [threads]; split; eauto.
+    + pose proof (step_request _ _ _ _ Hs) as [(e & _ & -> & _)|(q & _ & -> & _)]; cbn [threads]; split; eauto.
+    + pose proof (step_done _ _ _ _ _ Hs) as (i & _ & -> & _). cbn [threads]. split; eauto.
+    + pose proof (step_other _ _ _ _ Hs) as (-> & _). split; eauto.
+Qed.
+
+Lemma exec_services s ls s' tr : exec s ls = Some (s', tr) -> services s' = services s.
+Proof.
+  revert s tr. induction ls as [|l r IH]; intros s tr H.
+  - inversion H; reflexivity.
+  - apply exec_cons in H. destruct H as (s1 & ev & tr' & Hs & He & _).
+    rewrite (IH _ _ He). eapply step_services; eauto.
+Qed.
+
+(* one id, one call: two fetch events with the same id are the same event *)
+Lemma efetch_id_unique evs t1 t2 i c1 c2 :
+  NoDup (fetched_ids evs) -> In (EFetch t1 i c1) evs -> In (EFetch t2 i c2) evs -> c1 = c2.
+Proof.
+  induction evs as [|e r IH]; intros Hnd H1 H2; [destruct H1|].
+  assert (fetched_ids (e :: r) = fetched_ids [e] ++ fetched_ids r) as E by (unfold fetched_ids; cbn [flat_map]; rewrite app_nil_r; reflexivity).
+  rewrite E in Hnd.
+  destruct H1 as [->|H1], H2 as [E2|H2].
+  - inversion E2. reflexivity.
+  - exfalso. eapply (NoDup_app_disj _ _ i Hnd); [left; reflexivity|eapply in_fetched_ids; eauto].
+  - subst e. exfalso. eapply (NoDup_app_disj _ _ i Hnd); [left; reflexivity|eapply in_fetched_ids; eauto].
+  - apply IH; auto. eapply NoDup_app_tail; eauto.
+Qed.
+
+Lemma pinv_exec s ls s' tr : pinv s -> exec s ls = Some (s', tr) -> pinv s'.
+Proof.
+  revert s tr. induction ls as [|l r IH]; intros s tr Hp H.
+  - inversion H; subst. exact Hp.
+  - apply exec_cons in H. destruct H as (s1 & ev & tr' & Hs & He & _). eapply IH; [|exact He]. eapply pinv_step; eauto.
+Qed.
